@@ -632,73 +632,83 @@ def _jitted(env: Any) -> Tuple[Any, Any]:
     return _JIT_CACHE[id(env)][:2]
 
 
+class Modes:
+    """jit per call vs jit(vmap) over a batch of different paths vs jit(scan) along each path
+    (vs the eager trajectory of path 0 when given); compiled once per (env, setting)."""
+
+    def __init__(self, env: Any, b: bool):
+        import jax
+
+        from jumanji.wrappers import AutoResetWrapper
+
+        self.env, self.b = env, b
+        W = self.W = AutoResetWrapper(env, next_obs_in_extras=b)
+        self.dt = np.asarray(env.action_spec.generate_value()).dtype
+        self.jstep, self.jreset = jax.jit(W.step), jax.jit(W.reset)
+        self.vreset, self.vstep = jax.jit(jax.vmap(W.reset)), jax.jit(jax.vmap(W.step))
+
+        def roll(s0: Any, aa: Any) -> Any:
+            def body(s: Any, a: Any) -> Any:
+                s2, ts2 = W.step(s, a)
+                return s2, (s2, ts2)
+
+            return jax.lax.scan(body, s0, aa)
+
+        self.jroll = jax.jit(roll)
+
+    def check(self, seeds: Sequence[int], paths: Sequence[Sequence[Any]],
+              eager_ref: Optional[List[Any]] = None) -> List[str]:
+        import jax
+        import jax.numpy as jnp
+
+        from mc.engine import leaf_diff, t_index, to_np
+
+        P, D = len(paths), len(paths[0])
+        acts = jnp.asarray(np.asarray(paths, dtype=self.dt))  # [P, D, ...]
+        keys = jnp.stack([jax.random.PRNGKey(int(k)) for k in seeds])
+        fails: List[str] = []
+        ref: List[List[Any]] = []
+        for p in range(P):  # per-call jit
+            s, ts = self.jreset(keys[p])
+            traj = [to_np((s, ts))]
+            for t in range(D):
+                s, ts = self.jstep(s, acts[p, t])
+                traj.append(to_np((s, ts)))
+            ref.append(traj)
+        if eager_ref is not None:
+            for t in range(D + 1):
+                d = leaf_diff(eager_ref[t], ref[0][t])
+                if d:
+                    fails.append(f"eager-vs-jit t={t}: {d[:3]}")
+                    break
+        S, TS = self.vreset(keys)  # vmap over the batch of different paths
+        for t in range(D + 1):
+            got = to_np((S, TS))
+            for p in range(P):
+                d = leaf_diff(t_index(got, p), ref[p][t])
+                if d:
+                    fails.append(f"vmap-vs-jit path={p} t={t}: {d[:3]}")
+            if fails or t == D:
+                break
+            S, TS = self.vstep(S, acts[:, t])
+        for p in range(P):  # scan along each path
+            s0, _ = self.jreset(keys[p])
+            sD, ys = self.jroll(s0, acts[p])
+            ys, sD = to_np(ys), to_np(sD)
+            for t in range(D):
+                d = leaf_diff(t_index(ys, t), ref[p][t + 1])
+                if d:
+                    fails.append(f"scan-vs-jit path={p} t={t + 1}: {d[:3]}")
+                    break
+            d = leaf_diff(sD, ref[p][D][0])
+            if d:
+                fails.append(f"scan-carry-vs-jit path={p}: {d[:3]}")
+        return fails
+
+
 def modes_check(env: Any, b: bool, seeds: Sequence[int], paths: Sequence[Sequence[Any]],
                 eager_ref: Optional[List[Any]] = None) -> List[str]:
-    """jit per call vs jit(vmap) over the batch of paths vs jit(scan) along each path
-    (vs the eager trajectory of path 0 when given). Returns failure descriptions."""
-    import jax
-    import jax.numpy as jnp
-
-    from jumanji.wrappers import AutoResetWrapper
-
-    from mc.engine import leaf_diff, t_index, to_np
-
-    W = AutoResetWrapper(env, next_obs_in_extras=b)
-    dt = np.asarray(env.action_spec.generate_value()).dtype
-    P, D = len(paths), len(paths[0])
-    acts = jnp.asarray(np.asarray(paths, dtype=dt))  # [P, D, ...]
-    keys = jnp.stack([jax.random.PRNGKey(int(k)) for k in seeds])
-    jstep, jreset = jax.jit(W.step), jax.jit(W.reset)
-    fails: List[str] = []
-    # per-call jit
-    ref: List[List[Any]] = []
-    for p in range(P):
-        s, ts = jreset(keys[p])
-        traj = [to_np((s, ts))]
-        for t in range(D):
-            s, ts = jstep(s, acts[p, t])
-            traj.append(to_np((s, ts)))
-        ref.append(traj)
-    if eager_ref is not None:
-        for t in range(D + 1):
-            d = leaf_diff(eager_ref[t], ref[0][t])
-            if d:
-                fails.append(f"eager-vs-jit t={t}: {d[:3]}")
-                break
-    # vmap over the batch of different paths
-    S, TS = jax.jit(jax.vmap(W.reset))(keys)
-    vstep = jax.jit(jax.vmap(W.step))
-    for t in range(D + 1):
-        got = to_np((S, TS))
-        for p in range(P):
-            d = leaf_diff(t_index(got, p), ref[p][t])
-            if d:
-                fails.append(f"vmap-vs-jit path={p} t={t}: {d[:3]}")
-        if fails or t == D:
-            break
-        S, TS = vstep(S, acts[:, t])
-    # scan along each path
-    def roll(s0: Any, aa: Any) -> Any:
-        def body(s: Any, a: Any) -> Any:
-            s2, ts2 = W.step(s, a)
-            return s2, (s2, ts2)
-
-        return jax.lax.scan(body, s0, aa)
-
-    jroll = jax.jit(roll)
-    for p in range(P):
-        s0, _ = jreset(keys[p])
-        sD, ys = jroll(s0, acts[p])
-        ys, sD = to_np(ys), to_np(sD)
-        for t in range(D):
-            d = leaf_diff(t_index(ys, t), ref[p][t + 1])
-            if d:
-                fails.append(f"scan-vs-jit path={p} t={t + 1}: {d[:3]}")
-                break
-        d = leaf_diff(sD, ref[p][D][0])
-        if d:
-            fails.append(f"scan-carry-vs-jit path={p}: {d[:3]}")
-    return fails
+    return Modes(env, b).check(seeds, paths, eager_ref)
 
 
 # ---------------------------------------------------------------------------------------------
@@ -794,6 +804,7 @@ def run_model(model: str, tier: str, seed: int) -> Dict[str, Any]:
             res["closed"] = False
         # --- replay under per-call jit / vmap / scan / eager ------------------------------------
         picks = mon.picks
+        modes = Modes(env, b)
         n_modes = 6 if quick else 18
         chosen = picks[:n_modes]
         t0 = time.time()
@@ -821,7 +832,7 @@ def run_model(model: str, tier: str, seed: int) -> Dict[str, Any]:
                     bump("eager_boundaries_crossed", sum(
                         int(np.asarray(t[1].step_type) == 2) for t in traj[1:]))
                 eager_ref = traj if len(p0) == len(paths[0]) else None
-            fails = modes_check(env, b, seeds, paths, eager_ref)
+            fails = modes.check(seeds, paths, eager_ref)
             bump("mode_replay_paths", len(paths))
             bump("mode_replay_boundaries", sum(nb for _, _, nb, _ in g))
             if fails:
@@ -830,7 +841,9 @@ def run_model(model: str, tier: str, seed: int) -> Dict[str, Any]:
                     PID, model, sig, f"execution modes disagree on explored paths: {fails[:3]}",
                     {"model": model, "ctor": ctor, "kind": "modes", "signature": sig, "next_obs_in_extras": b,
                      "reset_key_seeds": [int(s) for s in seeds], "paths": paths, "property": PID}))
+        t_modes = time.time() - t0
         res["per_setting"][str(b)] = {
+            "replay_s": round(t_modes, 2),
             "states": r["states"], "transitions": r["transitions"], "terminal_edges": r["terminal_edges"],
             "cap": r["cap"], "explore_s": r["explore_s"], "paths": st["paths"], "path_depth": st["path_depth"],
             "paths_by_boundaries": st["paths_by_boundaries"], "paths_truncated": st["paths_truncated"],
